@@ -80,8 +80,9 @@ def normal_succ(body, bb):
 
 
 class PathEval:
-    def __init__(self, body):
+    def __init__(self, body, adts=None):
         self.b = body
+        self.adts = adts or {}        # name -> adt facts (for discriminant values of enum constants)
 
     def const(self, k):
         if "v" in k and isinstance(k["v"], int):
@@ -131,12 +132,19 @@ class PathEval:
                 return ("len", self.operand(rv["a"], env))
             return ("un", rv["op"], self.operand(rv["a"], env))
         if r == "discr":
-            return ("discr", self.place(rv["p"], env))
+            v = self.place(rv["p"], env)
+            if v[0] == "agg" and len(v) > 4 and v[4] and v[4][0] in self.adts:
+                vs = self.adts[v[4][0]].get("variants", [])
+                if v[4][1] < len(vs):
+                    return ("const", vs[v[4][1]].get("discr", v[4][1]))
+            return ("discr", v)
         if r == "agg":
             name = rv.get("kind")
+            meta = None
             if name == "adt":
                 name = "%s::%s" % (rv["n"], rv["vname"])
-            return ("agg", name, tuple(self.operand(o, env) for o in rv["ops"]), tuple(rv.get("fields") or ()))
+                meta = (rv["n"], rv.get("variant", 0))
+            return ("agg", name, tuple(self.operand(o, env) for o in rv["ops"]), tuple(rv.get("fields") or ()), meta)
         if r == "repeat":
             return ("agg", "repeat", (self.operand(rv["o"], env),), ())
         return ("konst", "rvalue:" + r)
@@ -229,11 +237,21 @@ def norm(e):
     if e[0] == "call":
         return ("call", e[1], tuple(norm(a) for a in e[2]), e[3])
     if e[0] == "bin":
-        return ("bin", e[1], norm(e[2]), norm(e[3]))
+        a, b = norm(e[2]), norm(e[3])
+        if a[0] == "const" and b[0] == "const" and isinstance(a[1], int) and isinstance(b[1], int):
+            op = e[1].replace("WithOverflow", "")
+            f = {"Add": lambda x, y: x + y, "Sub": lambda x, y: x - y, "Mul": lambda x, y: x * y, "BitAnd": lambda x, y: x & y,
+                 "BitOr": lambda x, y: x | y, "Shr": lambda x, y: x >> y, "Shl": lambda x, y: x << y}.get(op)
+            if f is not None and not (op in ("Shr", "Shl") and not 0 <= b[1] < 128) and not e[1].endswith("WithOverflow"):
+                return ("const", f(a[1], b[1]))
+        return ("bin", e[1], a, b)
     if e[0] in ("un",):
         return ("un", e[1], norm(e[2]))
     if e[0] == "cast":
-        return ("cast", norm(e[1]), e[2])
+        inner = norm(e[1])
+        if inner[0] == "const" and isinstance(inner[1], int) and e[2] in ("u8", "u16", "u32", "u64", "usize") and inner[1] >= 0:
+            return ("const", inner[1] & ((1 << {"u8": 8, "u16": 16, "u32": 32, "u64": 64, "usize": 64}[e[2]]) - 1))
+        return ("cast", inner, e[2])
     if e[0] in ("discr", "len"):
         return (e[0], norm(e[1]))
     if e[0] == "field":
@@ -243,7 +261,7 @@ def norm(e):
         base = norm(e[1])
         # `(a op_with_overflow b).0` is the arithmetic result
         if base[0] == "bin" and base[1].endswith("WithOverflow") and k in ("0", ("f", 0)):
-            return ("bin", base[1][:-len("WithOverflow")], base[2], base[3])
+            return norm(("bin", base[1][:-len("WithOverflow")], base[2], base[3]))
         # projection out of a value that was built on this very path: (Variant(x) as Variant).0 = x, (a, b).1 = b
         if base[0] == "field" and isinstance(base[2], tuple) and base[2][0] == "dc" and k in ("0", ("f", 0)):
             inner = strip(base[1])
@@ -255,7 +273,7 @@ def norm(e):
                 return base[2][idx]
         return ("field", base, k)
     if e[0] == "agg":
-        return ("agg", e[1], tuple(norm(a) for a in e[2]), e[3])
+        return ("agg", e[1], tuple(norm(a) for a in e[2]), e[3]) + tuple(e[4:])
     return e
 
 
